@@ -8,8 +8,11 @@
    set and every theorem below is order-insensitive), the default router, the
    package-global RA counter [repeat], the closed flag and whether the current
    closeChan is a closed channel.
-   Real time enters only through WHEN a [Wake i] happens (timer 2-2.8 s, or the
-   RA wake-up); every interleaving of Wake events is a behaviour of the model. *)
+   One pass of a spoofLoop goroutine is cut where it releases the lock: [Lookup i order] (under
+   h.Lock(): membership, closed, router known, the list of router addresses in map order) and one
+   [Send i] per collected address (outside the lock, no further test), so that StartHunt, StopHunt,
+   Close, received packets and other loops interleave between the decision and each send.
+   Real time enters only through WHEN a Lookup happens (timer 2-2.8 s, or the RA wake-up). *)
 From PV Require Export Base.Prelude Model.Icmp6SpoofRA.
 Open Scope N_scope.
 
@@ -61,7 +64,9 @@ Fixpoint al_del (l : list addr) (mac : bytes) : list addr :=
   end.
 
 (* ---- state ---- *)
-Record sloop := mkLoop { l_dst : addr; l_alive : bool }.
+(* one spoofLoop goroutine: its destination, whether it still runs, and the router addresses it
+   collected under the lock and has not sent to yet (the local slice [list] of spoofLoop) *)
+Record sloop := mkLoop { l_dst : addr; l_alive : bool; l_pending : list bytes }.
 
 Record state := mkSt {
   hunt : list addr;
@@ -90,13 +95,18 @@ Inductive event :=
 | StartHunt (a : addr)
 | StopHunt (a : addr)
 | Close
-| Wake (i : nat)
+| Lookup (i : nat) (order : list nat)
+    (* loop i passes its select (timer or RA wake-up) or starts: h.Lock(); membership and closed test;
+       list := the addresses of h.LANRouters in the map's iteration order [order]; h.Unlock() *)
+| Send (i : nat)
+    (* loop i sends the neighbour advertisement for the next address of its list, outside the lock *)
 | RxRA (src_ip eth_src p : bytes) (host_known : bool)
 | RxOther (p : bytes).      (* any other ICMPv6 message through ProcessPacket: touches none of this state *)
 
 Inductive out :=
 | OStage (s : stage) (e : option err)
 | ONAs (l : list na)
+| OLook (alive : bool) (decided : nat)     (* the loop goes on / returns; number of frames decided *)
 | ORA (r : res unit)
 | ONone.
 
@@ -116,9 +126,21 @@ Definition set_loops st l := mkSt (hunt st) l (routers st) (defrouter st) (repea
 Fixpoint kill (l : list sloop) (i : nat) : list sloop :=
   match l, i with
   | [], _ => []
-  | x :: r, O => mkLoop (l_dst x) false :: r
+  | x :: r, O => mkLoop (l_dst x) false [] :: r
   | x :: r, S i' => x :: kill r i'
   end.
+Fixpoint set_pending (l : list sloop) (i : nat) (p : list bytes) : list sloop :=
+  match l, i with
+  | [], _ => []
+  | x :: r, O => mkLoop (l_dst x) (l_alive x) p :: r
+  | x :: r, S i' => x :: set_pending r i' p
+  end.
+
+(* Go map iteration order: [order] lists the positions of LANRouters in the order the range
+   statement visits them.  Every theorem quantifies over all [order]s; for a permutation of
+   0..n-1 the result is a permutation of the whole table (Proofs: pick_perm). *)
+Definition pick {A} (order : list nat) (l : list A) : list A :=
+  flat_map (fun k => match nth_error l k with Some x => [x] | None => [] end) order.
 
 (* ICMP6SendNeighborAdvertisement(fakeRouter, dstAddr, targetAddr) *)
 Definition forge (c : config) (dst : addr) (router_ip : bytes) : na :=
@@ -126,18 +148,53 @@ Definition forge (c : config) (dst : addr) (router_ip : bytes) : na :=
        (if is_llu (a_ip dst) || is_llm (a_ip dst) then 255 else 64)
        false false true router_ip (host_mac c).
 
-(* one pass of the for-loop body of spoofLoop, from h.Lock() to the select *)
-Definition wake (c : config) (st : state) (i : nat) : state * out :=
+(* spoofLoop, the part under h.Lock(): icmp6spoof.go:61-76.  Enabled only when the goroutine has
+   nothing left to send (it is sequential: sends, then select, then the next lookup). *)
+Definition lookup (st : state) (i : nat) (order : list nat) : state * out :=
   match nth_error (loops st) i with
   | Some l =>
     if negb (l_alive l) then (st, ONone)
-    else if negb (al_has (hunt st) (a_mac (l_dst l))) || closed st
-    then (set_loops st (kill (loops st) i), ONAs [])
-    else match defrouter st with
-         | Some _ => (st, ONAs (map (fun kr => forge c (l_dst l) (r_ip (snd kr))) (routers st)))
-         | None => (st, ONAs [])
-         end
+    else match l_pending l with
+    | _ :: _ => (st, ONone)
+    | [] =>
+      if negb (al_has (hunt st) (a_mac (l_dst l))) || closed st
+      then (set_loops st (kill (loops st) i), OLook false 0)
+      else match defrouter st with
+           | Some _ =>
+             let lst := pick order (map (fun kr => r_ip (snd kr)) (routers st)) in
+             (set_loops st (set_pending (loops st) i lst), OLook true (List.length lst))
+           | None => (st, OLook true 0)
+           end
+    end
   | None => (st, ONone)
+  end.
+
+(* spoofLoop, one iteration of "for _, routerAddr := range list": outside the lock, no test of
+   the hunt list or of closed (icmp6spoof.go:78-110) *)
+Definition send (c : config) (st : state) (i : nat) : state * out :=
+  match nth_error (loops st) i with
+  | Some l =>
+    match l_pending l with
+    | ip :: rest => (set_loops st (set_pending (loops st) i rest), ONAs [forge c (l_dst l) ip])
+    | [] => (st, ONone)
+    end
+  | None => (st, ONone)
+  end.
+
+(* a whole pass without interleaving (what the older single Wake event was): lookup, then every send *)
+Fixpoint sends (c : config) (st : state) (i : nat) (n : nat) (acc : list na) : state * list na :=
+  match n with
+  | O => (st, acc)
+  | S n' => match send c st i with
+            | (st', ONAs l) => sends c st' i n' (acc ++ l)
+            | (st', _) => (st', acc)
+            end
+  end.
+Definition wake (c : config) (st : state) (i : nat) (order : list nat) : state * out :=
+  match lookup st i order with
+  | (st1, OLook true n) => let '(st2, l) := sends c st1 i n [] in (st2, ONAs l)
+  | (st1, OLook false _) => (st1, ONAs [])
+  | (st1, o) => (st1, o)
   end.
 
 Definition start_hunt (st : state) (a : addr) : state * out :=
@@ -146,7 +203,7 @@ Definition start_hunt (st : state) (a : addr) : state * out :=
   else if al_has (hunt st) (a_mac a) then (st, OStage Hunt None)
   else
     let dst := if ip_valid (a_ip a) then a else mkAddr (a_mac a) all_nodes in
-    (mkSt (al_add (hunt st) a) (loops st ++ [mkLoop dst true]) (routers st) (defrouter st)
+    (mkSt (al_add (hunt st) a) (loops st ++ [mkLoop dst true []]) (routers st) (defrouter st)
           (repeat_ st) (closed st),
      OStage Hunt None).
 
@@ -193,7 +250,8 @@ Definition step (c : config) (st : state) (e : event) : state * out :=
   | StartHunt a => start_hunt st a
   | StopHunt a => stop_hunt st a
   | Close => close st
-  | Wake i => wake c st i
+  | Lookup i order => lookup st i order
+  | Send i => send c st i
   | RxRA s m p hk => rx_ra st s m p hk
   | RxOther _ => (st, ONone)
   end.
